@@ -93,7 +93,8 @@ def model_jobs(ctx, quick):
     """(kind, name, module, cfg, expected) - expected: None = must pass, else the invariant that must be violated"""
     jobs = []
     # ---- agreement
-    jobs.append(("pass", "agree_fixed", "MC_SchemaAgree", agree_cfg(ctx, "MC_SchemaAgree_g_fixed.cfg", env=1 if quick else 2), None))
+    jobs.append(("pass", "agree_fixed", "MC_SchemaAgree", agree_cfg(ctx, "MC_SchemaAgree_g_fixed.cfg", env=1 if quick else 2,
+                                                                    polls=2 if quick else 3), None))
     jobs.append(("pass", "agree_live", "MC_SchemaAgree", agree_cfg(ctx, "MC_SchemaAgree_g_live.cfg", spec="FairSpec", env=1, polls=2 if quick else 3,
                                                                    prop="Terminates"), None))
     jobs.append(("asis", "agree_asis", "MC_SchemaAgree", agree_cfg(ctx, "MC_SchemaAgree_g_asis.cfg", countnull="TRUE"), "AgreeComplete"))
@@ -103,8 +104,12 @@ def model_jobs(ctx, quick):
     # ---- metadata cache / events / routing
     jobs.append(("pass", "meta_callers", "MC_SchemaMeta", meta_cfg(ctx, "MC_SchemaMeta_g_meta.cfg", "PlansMeta2", maxver=2 if quick else 3,
                                                                    absent="{2}"), None))
-    jobs.append(("pass", "meta_route", "MC_SchemaMeta", meta_cfg(ctx, "MC_SchemaMeta_g_route.cfg", "PlansRoute", maxver=2, down=1,
-                                                                 fail=0 if quick else 1, notable="{}" if quick else "{2}"), None))
+    if quick:
+        jobs.append(("pass", "meta_route_same", "MC_SchemaMeta", meta_cfg(ctx, "MC_SchemaMeta_g_route1.cfg", "PlansRoute1", maxver=2, down=1, fail=0), None))
+        jobs.append(("pass", "meta_route_two", "MC_SchemaMeta", meta_cfg(ctx, "MC_SchemaMeta_g_route2.cfg", "PlansRoute2", maxver=2, down=0, fail=0), None))
+    else:
+        jobs.append(("pass", "meta_route", "MC_SchemaMeta", meta_cfg(ctx, "MC_SchemaMeta_g_route.cfg", "PlansRoute", maxver=2, down=1, fail=1,
+                                                                     notable="{2}"), None))
     jobs.append(("pass", "meta_live", "MC_SchemaMeta", meta_cfg(ctx, "MC_SchemaMeta_g_live.cfg", "PlansRouteMeta" if not quick else "PlansMeta2",
                                                                 spec="FairSpec", maxver=2, fail=1, prop="Terminates"), None))
     if not quick:
@@ -406,7 +411,7 @@ def run(ctx):
         return _replay(ctx)
     rng = random.Random(ctx.seed)
     vf._scratch_spec_dir(ctx, "w")
-    pool = cf.ThreadPoolExecutor(max_workers=8 if quick else 10)
+    pool = cf.ThreadPoolExecutor(max_workers=20)
 
     # ---- 0. build; which variants of the driver model predict this tree (known defects present or repaired)
     binary = vf.build_gotest(ctx, ".", ["common", "x01"])
@@ -417,12 +422,6 @@ def run(ctx):
     probe = json.loads(m.group(1))
     ctx.log("probe: %s" % probe)
 
-    # ---- 1. model passes (in the background)
-    jobs = model_jobs(ctx, quick)
-    fut_models = [(j, pool.submit(_tlc, ctx, j[2], j[3], j[1], 4 if j[0] == "pass" else 2, 1500 if quick else 3000, "4g",
-                                  ))
-                  for j in jobs]
-
     # ---- 2. behaviours from TLC
     fams = meta_families(probe, quick)
     nwalk = 12 if quick else 60
@@ -431,12 +430,18 @@ def run(ctx):
     countnull = "TRUE" if probe["null_version_counted"] else "FALSE"
     fut_ga = [pool.submit(gen_agree, ctx, fam, allow, countnull, 150 if quick else 600, ctx.seed * 104729 + i)
               for i, (fam, allow) in enumerate(AGREE_FAMILIES)]
+
+    # ---- 1. model passes (in the background)
+    jobs = model_jobs(ctx, quick)
+    fut_models = [(j, pool.submit(_tlc, ctx, j[2], j[3], j[1], 4 if j[0] == "pass" else 2, 1500 if quick else 3000, "4g"))
+                  for j in jobs]
     walks = [f.result() for f in fut_gm]
     have = {t for _, ws in walks for w in ws for t in w["tags"]}
     # situations the random walks missed: TLC's counterexample to "never" is a shortest complete behaviour that meets them
     fut_gt = [pool.submit(gen_meta_target, ctx, tag, plans, kw, asis) for tag, plans, kw in META_TARGETS if tag not in have or not quick]
     targets = [f.result() for f in fut_gt]
     mscs, tags = meta_scenarios(targets + walks, 64 if quick else 420, rng)
+
     ascs = agree_scenarios([f.result() for f in fut_ga], 48 if quick else 320, rng)
     need = {t[0] for t in META_TARGETS}
     if need - set(tags):
